@@ -40,6 +40,8 @@ FirstFree(sl) == IF Free(sl) = {} THEN {} ELSE {CHOOSE i \in Free(sl) : \A j \in
 \* wrappers are applied in place; with NilOps also to the first empty slot
 Targets(sl) == NonNil(sl) \cup (IF NilOps THEN FirstFree(sl) ELSE {})
 Pairs(sl) == {p \in NonNil(sl) \X NonNil(sl) : p[1] # p[2]}
+\* three operands (multi-cause nodes with more than two branches; the third may repeat the second)
+Triples(sl) == {t \in NonNil(sl) \X NonNil(sl) \X NonNil(sl) : t[1] # t[2] /\ t[1] # t[3]}
 
 SentinelPool == {<<"ID_ctxCanceled", "L_ctxCanceled">>, <<"ID_osErrNotExist", "L_osErrNotExist">>,
                  <<"ID_osErrExist", "L_osErrExist">>, <<"ID_osErrPermission", "L_osErrPermission">>,
@@ -177,6 +179,8 @@ Step1(sl) ==
         \E i \in FirstFree(sl) : \E j \in NonNil(sl) \cup FirstFree(sl) : Take(Step(o, i, <<i, j>>, E, E, E, 0, E))
   \/ NilOps /\ \E o \in {"WithSecondaryError", "CombineErrors", "Join", "JoinPkg", "GoJoin"} \cap Ops :
         \E i \in NonNil(sl) : \E j \in FirstFree(sl) : Take(Step(o, i, <<i, j>>, E, E, E, 0, E))
+  \/ NSlots >= 3 /\ \E o \in {"Join", "JoinPkg", "GoJoin"} \cap Ops : \E t \in Triples(sl) :
+        Take(Step(o, t[1], <<t[1], t[2], t[3]>>, E, E, E, 0, E))
   \/ On("GoWrap2") /\ \E p \in Pairs(sl) : \E s \in SH : Take(Step("UMulti", p[1], <<p[1], p[2]>>, s, E, E, 0, E))
   \* a user multi-cause type with registered encoder / decoder
   \/ On("GoWrap2") /\ \E p \in Pairs(sl) : \E s \in SH : Take(Step("UMulti", p[1], <<p[1], p[2]>>, s, <<<<"REG">>>>, E, 0, E))
